@@ -12,21 +12,21 @@ WORK = run.WORK
 LIFE = {
     "C01": dict(models=["base_foreign", "restart"], tmodels=["t_restart3", "overlap"], fams=["other", "base", "amtless", "twohash"],
                 crashes=(0, 1), wf=0, rf=0),
-    "C02": dict(models=["restart", "faults"], tmodels=["t_restart3", "t_faults2", "overlap"], fams=["base", "overlap", "amtless"],
+    "C02": dict(focus=["Overlap", "Live"], models=["restart", "faults"], tmodels=["t_restart3", "t_faults2", "overlap"], fams=["base", "overlap", "amtless"],
                 crashes=(0, 1, 1), wf=1, rf=0, trf=1),
-    "C03": dict(models=["base_conf", "base_amtless", "restart"], tmodels=["t_restart3", "base_tot"], fams=["base", "amtless", "overlap"],
-                crashes=(0, 1), wf=0, rf=0),
+    "C03": dict(models=["base_conf", "base_amtless", "restart"], tmodels=["t_restart3", "base_tot"], fams=["base", "amtless", "overlap", "other"],
+                crashes=(0, 1), wf=0, rf=0, extra=["class"]),
     "C04": dict(models=["base_exp"], tmodels=["base_conf", "overlap"], fams=["base", "overlap"], crashes=(0,), wf=0, rf=0, heights=True),
-    "C05": dict(models=["overlap", "restart"], tmodels=["t_overlap2", "t_restart3"], fams=["overlap", "base"],
+    "C05": dict(focus=["Overlap", "Live"], models=["overlap", "overlapc"], tmodels=["overlap3", "restart", "t_overlap2", "t_restart3"], fams=["overlap", "overlap3", "base"],
                 crashes=(0, 1, 1), wf=0, rf=0),
     "C06": dict(models=["base_conf", "faults"], tmodels=["base_exp", "base_tot", "t_faults2"], fams=["base", "amtless", "other", "overlap", "twohash"],
                 crashes=(0,), wf=1, rf=1, extra=["garbage", "class-raw"]),
     "C07": dict(models=["base_conf", "base_exp", "base_tot", "base_amtless"], tmodels=["overlap"], fams=["base", "amtless"],
                 crashes=(0,), wf=0, rf=0),
-    "C08": dict(models=["overlap", "faults", "restart"], tmodels=["t_overlap2", "t_faults2"], fams=["overlap", "base"],
+    "C08": dict(focus=["Overlap", "Live"], models=["overlap", "faults", "restart"], tmodels=["t_overlap2", "t_faults2"], fams=["overlap", "base"],
                 crashes=(0, 1), wf=1, rf=0),
     "C09": dict(models=["faults"], tmodels=["t_faults2", "restart"], fams=["base", "overlap"], crashes=(0, 1, 1), wf=1, rf=0, probes=3),
-    "C11": dict(models=["base_conf", "restart"], tmodels=["t_restart3", "base_exp"], fams=["base", "amtless"], crashes=(0, 1), wf=0, rf=0),
+    "C11": dict(clockback=True, extra=["restart_wait"], models=["base_conf", "restart"], tmodels=["t_restart3", "base_exp"], fams=["base", "amtless"], crashes=(0, 1), wf=0, rf=0),
     "C12": dict(models=["base_tot", "base_exp"], tmodels=["base_conf"], fams=["base", "amtless"], crashes=(0,), wf=0, rf=0),
     "C13": dict(models=["base_foreign"], tmodels=["twohash"], fams=["other", "twohash"], crashes=(0,), wf=0, rf=0, extra=["class"]),
     "C10": dict(models=["base_foreign", "base_amtless"], tmodels=["base_conf"], fams=["other", "amtless"], crashes=(0,), wf=0, rf=0, extra=["class"]),
@@ -38,13 +38,31 @@ LIFE = {
 STATS = re.compile(r"(\d+) states generated, (\d+) distinct states found")
 SCHED = re.compile(r'^<<"SCHED", "(.*)">>$')
 
-def tlc_design(name, props, workdir, timeout, workers=12, emit_rate=None, seed=1):
+def parse_scheds(out):
+    scheds = []
+    for line in out.splitlines():
+        mm = SCHED.match(line.strip())
+        if mm:
+            js = mm.group(1).replace('\\"', '"').replace("\\\\", "\\")
+            try:
+                evs = json.loads(js)
+            except Exception:
+                continue
+            scheds.append([s for s in (ev_to_step(e) for e in evs) if s])
+    return scheds
+
+def tlc_design(name, props, workdir, timeout, workers=12, emit_rate=None, seed=1, focus="Edge", sample=None):
     """Check the design instance `name` (or emit schedules).  Returns (generated, distinct, out)."""
     m = models.MODELS[name]
     models.consts_of(name)
-    cfgp = f"{workdir}/MC_{name}_{'emit' if emit_rate else 'check'}.cfg"
+    cfgp = f"{workdir}/MC_{name}_{'emit' + focus if emit_rate else 'check'}.cfg"
     os.makedirs(workdir, exist_ok=True)
-    open(cfgp, "w").write(models.emit_cfg(m, emit_rate) if emit_rate else models.check_cfg(m, m["props"] or props))
+    if emit_rate:
+        open(cfgp, "w").write(models.emit_cfg(m, emit_rate, focus))
+    elif sample:
+        open(cfgp, "w").write(models.check_cfg(m, m["props"] or props, rate=sample[0], frate=sample[1]))
+    else:
+        open(cfgp, "w").write(models.check_cfg(m, m["props"] or props))
     meta = f"{workdir}/meta_{name}_{'e' if emit_rate else 'c'}"
     env = dict(os.environ, JAVA_TOOL_OPTIONS="-DTLA-Library=/verif/spec")
     cmd = ["timeout", str(timeout), "tlc", "-workers", str(workers), "-seed", str(seed), "-metadir", meta, "-cleanup",
@@ -65,7 +83,9 @@ def tlc_design(name, props, workdir, timeout, workers=12, emit_rate=None, seed=1
 def ev_to_step(ev):
     t = ev["t"]
     def sel(c):
-        s = {k: v for k, v in c.items() if k in ("kind", "hash", "key", "a", "mode", "gen", "status", "part", "inv")}
+        # name the call by what it is for, not by the argument values the specification expects: a change of the
+        # code that alters a mode or a generation must not make the schedule step inapplicable
+        s = {k: v for k, v in c.items() if k in ("kind", "hash", "key", "status", "part")}
         return s
     if t == "htlc":
         return {"a": "htlc", "i": ev["i"]}
@@ -89,8 +109,8 @@ def ev_to_step(ev):
         return {"a": "crash", "lose": len(ev["lost"]) > 0}
     return None
 
-def schedules_from_tlc(name, workdir, rate, seed, timeout, limit):
-    _, _, out = tlc_design(name, None, workdir, timeout, workers=4, emit_rate=rate, seed=seed)
+def schedules_from_tlc(name, workdir, rate, seed, timeout, limit, focus="Edge"):
+    _, _, out = tlc_design(name, None, workdir, timeout, workers=4, emit_rate=rate, seed=seed, focus=focus)
     scheds = []
     for line in out.splitlines():
         mm = SCHED.match(line.strip())
@@ -113,30 +133,50 @@ def build_jobs(pid, tier, seed, workdir):
     jobs = []
     runno = 1
     sched_stats = {}
-    # 1. schedules generated by TLC from the design instances
+    # 1. design verdict + schedules: ONE TLC run per instance checks the properties exhaustively and prints a
+    #    sample of its edges (general sample + edges into the overlap / live-payment regions)
     mlist = spec["models"] + (spec["tmodels"] if thorough else [])
-    per_model = 4000 if thorough else 700
+    per_model = 20000 if thorough else 1500
+    mstats = {}
+    EST = {"base_conf": 190000, "base_exp": 370000, "base_tot": 200000, "base_amtless": 43000, "base_foreign": 28000,
+           "restart": 280000, "overlap": 480000, "overlap3": 1850000, "overlapc": 440000, "faults": 74000, "twohash": 850000, "rfaults": 80000, "provider": 5000,
+           "t_restart3": 6000000, "t_overlap2": 8000000, "t_faults2": 2000000, "t_twohash2": 8000000}
+    rng1 = random.Random(seed + 17)
     for name in mlist:
         m = models.MODELS[name]
-        # aim at roughly per_model schedules: sample 1 edge in `rate`
-        est_edges = {"base_conf": 190000, "base_exp": 370000, "base_tot": 200000, "base_amtless": 43000, "base_foreign": 28000,
-                     "restart": 280000, "overlap": 480000, "faults": 74000, "twohash": 850000, "rfaults": 80000,
-                     "t_restart3": 6000000, "t_overlap2": 8000000, "t_faults2": 2000000, "t_twohash2": 8000000}.get(name, 300000)
-        if thorough and name.startswith("t_"):
-            continue  # the big instances are checked, not mined (simulation covers their depth)
+        est_edges = EST.get(name, 300000)
         rate = spec.get("allrate") or max(1, est_edges // per_model)
-        scheds = schedules_from_tlc(name, workdir, rate, seed, 900, 100000 if spec.get("allrate") else per_model * 2)
+        frate = max(1, rate // 5) if spec.get("focus") else 0
+        if name.startswith("t_"):
+            rate, frate = max(1, est_edges // 3000), 0    # the big instances are checked; only a thin sample is replayed
+        g, d, out = tlc_design(name, models.ALLPROPS, workdir, 3000 if thorough else 900, workers=14, seed=seed, sample=(rate, frate))
+        mstats[name] = {"generated": g, "distinct": d}
+        scheds = parse_scheds(out)
+        cap = 100000 if spec.get("allrate") else int(per_model * (2.2 if frate else 1.2))
+        if len(scheds) > cap:
+            scheds = rng1.sample(scheds, cap)
         sched_stats[name] = len(scheds)
         sc = models.scenario(name)
-        for s in scheds:
-            jobs.append({"run": runno, "scen": sc, "sched": s, "drain": True, "probes": spec.get("probes", 0), "tag": "tlc:" + name})
+        for s_ in scheds:
+            jobs.append({"run": runno, "scen": sc, "sched": s_, "drain": True, "probes": spec.get("probes", 0), "tag": "tlc:" + name})
+            runno += 1
+    # 1b. seeded random schedules over the instances' own scenarios (these runs are conformance-checked too)
+    rng0 = random.Random(seed * 7 + 1)
+    for name in mlist:
+        if name.startswith("t_") or models.MODELS[name].get("direct"):
+            continue
+        sc = models.scenario(name)
+        for _ in range(300 if thorough else 60):
+            r = {"seed": rng0.getrandbits(40), "steps": rng0.randint(20, 50), "crashes": rng0.choice(spec["crashes"]),
+                 "wfaults": rng0.randint(0, spec["wf"]), "rfaults": 0, "maxparts": 2, "maxpays": 3, "maxclock": 8}
+            jobs.append({"run": runno, "scen": sc, "rand": r, "probes": 0, "tag": "rnd:" + name})
             runno += 1
     # 2. the harness's own seeded random scheduler
     n = 12000 if thorough else 1500
     rf = spec.get("trf", spec["rf"]) if thorough else spec["rf"]
     rj = scen.rand_jobs(seed, n, spec["fams"], crashes=spec["crashes"], wfaults=spec["wf"], rfaults=rf,
                         probes=spec.get("probes", 0), heights=spec.get("heights", False), freeze=spec.get("freeze", False),
-                        start_run=runno, direct=spec.get("direct", 0), policies=spec.get("policies", True))
+                        start_run=runno, direct=spec.get("direct", 0), policies=spec.get("policies", True), clockback=spec.get("clockback", False))
     jobs += rj
     runno += len(rj)
     # 3. systematically enumerated inputs
@@ -151,8 +191,12 @@ def build_jobs(pid, tier, seed, workdir):
             j["run"] = runno + k
         jobs += cj; runno += len(cj)
         sched_stats["raw metadata cases"] = len(cj)
+    if "restart_wait" in ex:
+        dj = scen.restart_wait_jobs(start_run=runno)
+        jobs += dj; runno += len(dj)
+        sched_stats["directed restart/timeout schedules"] = len(dj)
     if "garbage" in ex:
         gj = scen.garbage_jobs(seed, 8000 if thorough else 1200, start_run=runno)
         jobs += gj; runno += len(gj)
         sched_stats["garbage input runs"] = len(gj)
-    return jobs, sched_stats
+    return jobs, sched_stats, mstats
